@@ -199,12 +199,36 @@ PENDING = 'check under construction in this session (see DESIGN.md section 4); n
 ALL = [f'C{i:02d}' for i in range(1, 21)]
 
 
+
+# sentences appended after the second round of seeded changes (DESIGN.md 10.2)
+ADDENDA = {
+    'C01': ' Round 2: the Tseytin templates are also evaluated for repeated operands under C01.SEM-SIB; every exit of evaluate_circuit / evaluate_full_circuit lies behind the evaluation loop (C01.APPLY).',
+    'C02': ' Round 2: _add_user/_remove_user change the users multiset by exactly one occurrence; Block._rename_gate is folded on lists with repeated labels.',
+    'C03': ' Round 2: C03.FOLD folds every pass (_transform of RemoveRedundantGates with and without input removal, MergeUnaryOperators, MergeDuplicateGates, MergeEquivalentGates) over a bounded family of model circuits with oracle traversals in two visiting orders (new circuit, argument untouched, inputs, outputs, function, well-formedness, size); C03.UNARY folds every unary chain; C03.IFACE forbids input-removal requests inside the library.',
+    'C04': ' Round 2: C04.CONE folds _generate_inputs_tt, _get_subcircuits and evaluate_truth_table_with_dont_cares over model circuits with an oracle cut family (closed cones, size, outputs, patterns = functions of the leaves, don\'t-care rows aligned with pattern bits); C06.DEC (two-output models) is run as a shared rule. Still not decided: _eval_dont_cares (while-loop counter), the splice of the main loop beyond the listed clauses.',
+    'C05': ' Round 2: C05.FOLD folds tseytin_transformation as a whole over a bounded family of model circuits and output selections and decides each clause set against the circuit by unit propagation from the input variables.',
+    'C06': ' Round 2: C06.DEC on two-output models (same gate twice, later gate first); C06.FIX with a fixed type outside the basis / against normalisation; C06.ENC on degenerate sizes (0 gates, 1 input) where no structure exists and the clause set must be unsatisfiable.',
+    'C07': ' Round 2: C07.FOLD also instantiates add_sum_two_numbers and add_sum_two_numbers_with_shift (small shifts) for widths <= 3, every operand value, with the while-loop bit counters replaced by contract gates (decided relative to that contract); C07.ARGS forbids de-duplicating containers on operand-derived values.',
+    'C08': ' Round 2: C08.FOLD instantiates add_mul_alter (widths <= 3 x 3), the two-number adders and add_sub_two_numbers (Karatsuba\'s subtraction) with contract gates for the bit counters. NOT decided and demonstrably missed (seeded changes C08-5, C08-6): numerical exactness of the while-loop multipliers (default, Karatsuba, Dadda, Wallace, 2^k-1) and of the squarers.',
+    'C09': ' Round 2: C09.FOLD additionally instantiates add_subtract_with_compare (widths <= 3 x 3; difference and borrow flag a < b), add_div_mod (widths <= 3; (0,0) for b = 0) and add_sqrt (widths <= 5, bit counters by contract) for every operand value and both endiannesses on a host with gates of its own.',
+    'C10': ' Round 2: C02.COPY (no store into circuit state or Block argument aliases a caller-visible list) is run as a shared rule.',
+    'C12': ' Round 2: C12.ITER folds input_iterator_with_fixed_sum itself (run to completion: every assignment of the weight exactly once, each yielded list a fresh object; F26 fixed); the circuit model of C12.FOLD has gates and a users index.',
+    'C13': ' Round 2: C13.WIRE resolves every call attaching a circuit to the miter against its callee\'s signature (defaulted connectors are reported as such).',
+    'C14': ' Round 2: operand cases include an inner gate that is an output and a block member; pre-existing gates and outputs must survive each rewrite; the contract of _add_user/_remove_user is folded (C14.IDX).',
+    'C15': ' Round 2: exits of the evaluators lie behind the evaluation loop (C01.APPLY).',
+    'C16': ' Round 2: C16.GATE-RT folds _encode_gate then _decode_gate on a recording bit stream for every type of the format and every identifier pattern (ascending, descending, repeated, wrong operand counts): same function of the same gates or CircuitEncodingError.',
+    'C17': ' Round 2: C17.NORM runs on a model circuit with real gate types and a users index; C17.KEY: no raw write to circuit internals in cirbo/circuits_db, decoded gates enter through add_gate.',
+    'C18': ' Round 2: C18.FOLD folds every pass over the model-circuit family: RemoveRedundantGates returns exactly the reachable gates (+ inputs) and is idempotent; after MergeDuplicateGates / MergeEquivalentGates (+ implied RemoveRedundantGates) no two gates share a signature / no two non-input gates a truth table; MergeUnaryOperators post-conditions.',
+    'C19': ' Round 2: Block._rename_gate folded on lists with repeated labels.',
+}
+
 def main():
     checks = []
     for p in ALL:
         if p not in CLAIMS:
             continue
         tech, text, ref = CLAIMS[p]
+        text = text + ADDENDA.get(p, '')
         checks.append({
             'property_id': p,
             'quick_cmd': f'{PY} -m cirbo_verif check {p} --tier quick',
